@@ -119,6 +119,13 @@ LayoutAt(j) ==
       ELSE MItem("mnemonic.parse", "layout_unicode",
                  [text |-> JoinWith(idx, CpsToStr(<<OpenSeps[m - Len(StdSeps) * 3 + 1]>>))])
 
+\* ---- S: unknown-word sweep (run-length directive expanded by the executor) ------------------------------
+\* 32 (thorough 64) directives of 3 (thorough 6) million pseudo-random lower-case tokens each, at rotating positions:
+\* about 10^8 unknown words per run (a parse takes about a microsecond)
+NSweep == IF Thorough THEN 64 ELSE 32
+SweepAt(j) == MItem("mnemonic.sweep", "sweep", [count |-> IF Thorough THEN 6000000 ELSE 3000000,
+                                                 seed |-> PrngNat(K("sweep", <<j>>), 8000000) + j, pos |-> 1 + (j % 12)])
+
 \* ---- G: generation with injected entropy (one-hot, patterns, refusals) --------------
 \* one-hot: every bit of every size
 OneHotOffsets == <<0, 128, 288, 480, 704>>          \* cumulative bit counts of 16,20,24,28,32 bytes
